@@ -22,6 +22,10 @@ def run_bounded(pid, tier):
     extra = corpus.classic() + corpus.rule_orders() + corpus.random_grammars(
         1200 if params["tier"] == "quick" else 12000, n_prods=(4, 5, 6))
     items = [(pid, g, params) for g in gs] + [(pid, g, dict(params, max_len=min(params["max_len"], 4))) for g in extra]
+    # look-ahead chains (terminals a-d) and adjacent nullable lists: committed families, see vlib/corpus.py
+    items += [(pid, g, dict(params, alphabet="abcd", max_len=3 if tier == "quick" else 4, layout_len=2))
+              for g in corpus.lookahead_chains()]
+    items += [(pid, g, dict(params, max_len=5)) for g in corpus.nullable_lists()]
     if pid == "C08":
         # lexical overlap: forked GLR heads must keep positions and layout too
         ogs = grammars(3, 2)
